@@ -12,6 +12,8 @@
     PO n row (re im)*2^n          -> `pauliOp n row` applied to the given state vector
     AG n <rows>                   -> gate list of the model of `to_circuit("AG04")` (name q.., comma separated) |
                                      working tableau after both loops | tableau of the returned circuit from the zero state
+    BM n <rows>                   -> gate list of the model of `to_circuit("BM20")` | tableau of it from the zero state | CNOT cost
+                                     (RAISES: an exception)
     EX n hasinit [<rows>] nitems item* ncoins coin*   -> REFUSED | ENGINE | DONE <tableau> | outcomes
          item = G flag hasop name a b k | M collapse m q_1..q_m | N hasop name a b k
 -/
@@ -201,6 +203,12 @@ def handle : P String := do
     | .done T outs =>
       let os := ",".intercalate (outs.map fun o => String.ofList (o.map bit))
       pure s!"DONE {showT n (T.map (norm n))} | {os}"
+  | "BM" =>
+    let n ← nextNat
+    let T ← nextTableau n
+    match toCircuitBM20 n T with
+    | some gs => pure s!"{showGates gs} | {showT n ((runGates gs (zeroState n)).map (norm n))} | {cnotCost n T}"
+    | none => pure "RAISES"
   | "AG" =>
     let n ← nextNat
     let T ← nextTableau n
